@@ -128,7 +128,8 @@ def classify(case, fail):
         name = type(t).__name__
         if name == 'Image' and (set(t.src) & set('{}%#$^\\&_~\n ')):
             img_special = True
-        if name in ('CodeFence',) and (set(t.language) & set('{}%#$^\\&_[]')):
+        if name in ('CodeFence',) and any(not (c.isalnum() or c in '+-.') for c in t.language):
+            # copied raw into [language=...]: LaTeX specials, brackets, and (through character references) line ends or spaces
             lang_special = True
         if name in ('CodeFence', 'BlockCode') and '\\end{lstlisting}' in t.children[0].content:
             code_end = True
